@@ -518,6 +518,23 @@ class _IdentityComp(ast.NodeTransformer):
         return n
 
 
+class _StarDictDisplay(ast.NodeTransformer):
+    """f(a, **{'k': v}) is f(a, k=v); f(a, **{}) is f(a) (a dict display with literal identifier keys spliced into a call)"""
+
+    def visit_Call(self, n):
+        self.generic_visit(n)
+        new_kw, changed = [], False
+        for k in n.keywords:
+            if k.arg is None and isinstance(k.value, ast.Dict) and all(isinstance(x, ast.Constant) and isinstance(x.value, str) and x.value.isidentifier() for x in k.value.keys):
+                new_kw.extend(ast.keyword(arg=x.value, value=v) for x, v in zip(k.value.keys, k.value.values))
+                changed = True
+            else:
+                new_kw.append(k)
+        if changed:
+            n.keywords = new_kw
+        return n
+
+
 class _KwargKeys(ast.NodeTransformer):
     """for the ** parameter K of a function (always a dict): set(list(K.keys())), set(K.keys()), set(list(K)) -> set(K); `x in K.keys()` -> `x in K`"""
 
@@ -560,6 +577,7 @@ def alpha(f):
     if kw:
         f = _KwargKeys(kw).visit(f)
     f = _TupleConcat().visit(f)
+    f = _StarDictDisplay().visit(f)
     f = _IdentityComp().visit(f)
     f = _ReduceOverList().visit(f)
     return _SymOrder().visit(f)
@@ -732,10 +750,19 @@ def _inline_call(call: ast.Call, helper: ast.FunctionDef, skip: int, make_tail, 
     if len(call.args) > len(allp) - skip:
         return None
     binding: Dict[str, ast.expr] = dict(zip(params, call.args))
+    surplus = []
     for k in call.keywords:
-        if k.arg not in params or k.arg in binding:
+        if k.arg in binding:
+            return None
+        if k.arg not in params:
+            # a keyword the helper does not name is collected by its **kwargs (only when the call passes no **mapping of its own)
+            if a.kwarg and not star_kw:
+                surplus.append(k)
+                continue
             return None
         binding[k.arg] = k.value
+    if surplus:
+        extra_binding[a.kwarg.arg] = ast.Dict(keys=[ast.Constant(k.arg) for k in surplus], values=[k.value for k in surplus])
     for p_ in params:
         if p_ not in binding:
             if p_ not in defmap:
